@@ -1,24 +1,26 @@
 #!/venv/bin/python
 """Runs the property's check against every confirmed seed in /verif/seeded and records the outcome in meta.json.
-usage: tools/seedmatrix.py [--tier quick|thorough] [--jobs N] [id-substring ...]"""
+usage: tools/seedmatrix.py [--tier quick|thorough] [--jobs N] [--seed S] [id-substring ...]
+--seed S (S != 0) re-runs with another VERIF_SEED and records under checks["<tier>@seed<S>"]: a catch that depends on the draw shows up as a miss there."""
 import concurrent.futures as cf, json, os, subprocess, sys
 VERIF = os.path.dirname(os.path.dirname(os.path.abspath(__file__)))
-args = sys.argv[1:]; tier = "quick"; jobs = 3; subs = []
+args = sys.argv[1:]; tier = "quick"; jobs = 3; subs = []; seed = "0"
 i = 0
 while i < len(args):
     if args[i] == "--tier": tier = args[i+1]; i += 2
     elif args[i] == "--jobs": jobs = int(args[i+1]); i += 2
+    elif args[i] == "--seed": seed = args[i+1]; i += 2
     else: subs.append(args[i]); i += 1
 ids = sorted(d for d in os.listdir(os.path.join(VERIF, "seeded")) if os.path.exists(os.path.join(VERIF, "seeded", d, "patch.diff")) and (not subs or any(s in d for s in subs)))
 def one(sid):
     mp = os.path.join(VERIF, "seeded", sid, "meta.json")
     meta = json.load(open(mp))
-    r = subprocess.run([os.path.join(VERIF, "tools", "seedrun.sh"), os.path.join(VERIF, "seeded", sid, "patch.diff"), meta["property"], tier],
+    r = subprocess.run([os.path.join(VERIF, "tools", "seedrun.sh"), os.path.join(VERIF, "seeded", sid, "patch.diff"), meta["property"], tier, seed],
                        capture_output=True, text=True, timeout=4*3600, env=dict(os.environ, SEEDRUN_LINES="6"))
     lines = r.stdout.strip().split("\n")
     verdict = lines[0].split()[-1] if lines and lines[0] else "ERROR"
     keys = [l.strip()[4:].split(" count=")[0] for l in lines[1:] if l.strip().startswith("key=")]
-    meta.setdefault("checks", {})[tier] = {"cmd": f"tools/seedrun.sh seeded/{sid}/patch.diff {meta['property']} {tier}", "verdict": verdict, "violation_keys": keys}
+    meta.setdefault("checks", {})[tier if seed == "0" else f"{tier}@seed{seed}"] = {"cmd": f"tools/seedrun.sh seeded/{sid}/patch.diff {meta['property']} {tier} {seed}", "verdict": verdict, "violation_keys": keys}
     json.dump(meta, open(mp, "w"), indent=1)
     return sid, verdict, keys
 with cf.ThreadPoolExecutor(jobs) as ex:
